@@ -1,4 +1,5 @@
 import Gsp.Model.Ctx
+import Gsp.Lemmas.CtxAgree
 /-! C11 — schema-side, document-side and stored paths agree.
     `storedKey` is the specification (JSON-LD 1.1 term resolution during expansion); `pathFromDocument`,
     `pathFromContext`, `typeFromContext`, `typeIDFromContext` follow the Go resolvers. The full statement
@@ -80,6 +81,37 @@ theorem top_level_field_agrees (s : Schema) (fuel : Nat) (base : Active) (tname 
   · simp [storedKey, Node.types, Node.props, htypes, hfield, hfb, hprops]
   · simp [pathFromContext, hnumT, hnum, htype, happly, hfield, hfa, Except.map]
 
+/-- **Document-side path = stored key** — the full statement `doc_eq_stored` restricted to documents whose nodes carry
+    no types (`_partial`: D8 makes the unrestricted statement false, see `d8_counterexample`). For every schema without
+    numeric term names, every active context, every dotted path (any depth, positions included): when the
+    document-side resolver and the specification of expansion both give a path, it is the same path. -/
+theorem doc_eq_stored_partial (s : Schema) (hs : SchemaNoNum s) (π : List String) (f1 f2 : Nat) (a : Active)
+    (cur : Option Node) (acc : Bool) (q q' : List PathPart) (hnn : NoNum a) (hut : UntypedN π.length cur)
+    (h1 : pathFromDocument s f1 a (.single cur) acc π = .ok q) (h2 : storedKey s f2 a cur π = .ok q') : q = q' :=
+  doc_eq_stored_untyped s hs π.length π (Nat.le_refl _) f1 f2 a cur acc q q' hnn hut h1 h2
+
+/-- **Context-side path = document-side path** on the same class: the path resolved from the context alone and the
+    one resolved by walking the document are equal whenever both exist -/
+theorem ctx_eq_doc_partial (s : Schema) (f : Nat) (π : List String) (a : Active) (v : Val) (acc : Bool)
+    (q q' : List PathPart) (hut : UntypedV π.length v)
+    (h1 : pathFromDocument s f a v acc π = .ok q) (h2 : pathFromContext s a π = .ok q') : q = q' :=
+  ctx_eq_doc_untyped s f π a v acc q q' hut h1 h2
+
+/-- non-vacuity of the two theorems: a nested, untyped document with a property-scoped context and an array, on which
+    all three resolvers succeed (and agree) -/
+def okSchema : Schema :=
+  { top := 0
+    ctxs := [(0, [⟨"addr", "urn:v#addr", "", some 1⟩, ⟨"tags", "urn:v#tags", "", none⟩]),
+             (1, [⟨"city", "urn:a#city", "", none⟩])] }
+def okDoc : Node := .mk [] [("addr", [some (.mk [] [("city", [none])])]), ("tags", [none, none])]
+def okTop : Active := (termsOf okSchema 0).getD []
+
+deriving instance DecidableEq for Except
+example : pathFromDocument okSchema 10 okTop (.single (some okDoc)) false ["addr", "city"] = .ok [.s "urn:v#addr", .s "urn:a#city"] ∧
+    storedKey okSchema 10 okTop (some okDoc) ["addr", "city"] = .ok [.s "urn:v#addr", .s "urn:a#city"] ∧
+    pathFromContext okSchema okTop ["addr", "city"] = .ok [.s "urn:v#addr", .s "urn:a#city"] := by
+  refine ⟨?_, ?_, ?_⟩ <;> decide
+
 /-- Known finding D8, proved on the model: a type-scoped definition of `x` leaks into a nested node. The nested
     node is untyped, so expansion resolves `x` with the outer definition (`urn:outer#x`, what is stored), while the
     document-side resolver answers with the inner one (`urn:inner#x`) — a different path instead of the stored key. -/
@@ -90,7 +122,6 @@ def d8Schema : Schema :=
 def d8Doc : Node := .mk ["T"] [("p", [some (.mk [] [("x", [none])])])]
 def d8Top : Active := (termsOf d8Schema 0).getD []
 
-deriving instance DecidableEq for Except
 theorem d8_counterexample :
     pathFromDocument d8Schema 10 d8Top (.single (some d8Doc)) false ["p", "x"] = .ok [.s "urn:v#p", .s "urn:inner#x"] ∧
     storedKey d8Schema 10 d8Top (some d8Doc) ["p", "x"] = .ok [.s "urn:v#p", .s "urn:outer#x"] := by
